@@ -11,7 +11,8 @@ question.py:104-135: dict-valued defaults are templates updated by the given dic
 `MultipleChoiceQuestion.__init__`'s itemset/list_name requirement).  Outside the fragment: survey
 `choices` and selects that carry their options (`children`/`choices` on a question), `trigger`
 (the trigger tables are then non-empty), `add_none_option`, loop / include / xml-external /
-csv-external / entity / osm elements.
+csv-external / entity / osm elements, elements whose `name` is not a non-empty string (their dump raises
+in `validate`), a survey dict with an empty `title` (its dump would gain `title = name` on the next load).
 
 Slots hold the value found in the dict or `null`; the constructors replace a falsy given value by
 the falsy initial value, which `to_json_dict` cannot tell apart (see ToJson.reloadSlots).
@@ -66,12 +67,12 @@ def mergeOk (entry kvs : Dict) : Bool :=
 
 /-- the control tag of a type-table entry (`_get_question_class`). -/
 def tagOf (entry : Dict) : Option Str :=
-  match lookup "control".toList entry with
+  match lookup k!"control" entry with
   | some (.obj c) =>
-    match lookup "tag".toList c with
+    match lookup k!"tag" c with
     | some (.str t) =>
-      let osm : Bool := match lookup "mediatype".toList c with
-        | some (.str m) => t = "upload".toList ∧ m = "osm/*".toList
+      let osm : Bool := match lookup k!"mediatype" c with
+        | some (.str m) => t = k!"upload" ∧ m = k!"osm/*"
         | _ => false
       if osm then none else some t
     | some _ => none
@@ -90,13 +91,20 @@ def isTruthyAt (k : Str) (kvs : Dict) : Bool :=
 def overrideSlot (k : Str) (v : J) (slots : Dict) : Dict :=
   slots.map fun kv => if kv.1 = k then (kv.1, v) else kv
 
+/-- `SurveyElement.validate` (called by `to_json_dict`) raises unless the name is an XML tag; the model needs
+    only that it is a non-empty string (so that it is not dropped from the dump). -/
+def nameOk (kvs : Dict) : Bool :=
+  match lookup k!"name" kvs with
+  | some (.str s) => !s.isEmpty
+  | _ => false
+
 def unsupportedTypes : List Str :=
-  ["loop".toList, "include".toList, "xml-external".toList, "csv-external".toList, "entity".toList, "osm".toList]
+  [k!"loop", k!"include", k!"xml-external", k!"csv-external", k!"entity", k!"osm"]
 
 /-- a question element from its dict. -/
 def questionFromJson (cfg : Cfg) (t : Str) (kvs : Dict) : Option El :=
-  if unsupportedTypes.contains t then none
-  else if hasKey "trigger".toList kvs ∨ hasKey "children".toList kvs ∨ hasKey "choices".toList kvs then none
+  if unsupportedTypes.contains t ∨ t.isEmpty ∨ !nameOk kvs then none
+  else if hasKey k!"trigger" kvs ∨ hasKey k!"children" kvs ∨ hasKey k!"choices" kvs then none
   else
     match lookup t cfg.qtd with
     | none => none                                  -- Unknown question type
@@ -109,7 +117,7 @@ def questionFromJson (cfg : Cfg) (t : Str) (kvs : Dict) : Option El :=
           if !cfg.knownTags.contains tag then none
           else
             let isSel := cfg.selectTags.contains tag
-            if isSel ∧ !(isTruthyAt "itemset".toList kvs ∨ isTruthyAt "list_name".toList kvs) then none
+            if isSel ∧ !(isTruthyAt k!"itemset" kvs ∨ isTruthyAt k!"list_name" kvs) then none
             else
               let names := if isSel then cfg.selectNames else cfg.questionNames
               some (.mk .question (reloadSlots names (mergeQtd entry kvs)) (entry.map Prod.fst)
@@ -129,13 +137,14 @@ def mapOpt {α β} (f : α → Option β) : List α → Option (List β)
 def fromJson (cfg : Cfg) : Nat → J → Option El
   | 0, _ => none
   | f + 1, .obj kvs =>
-    match lookup "type".toList kvs with
+    match lookup k!"type" kvs with
     | some (.str t) =>
-      if t = "survey".toList ∨ t = "group".toList ∨ t = "repeat".toList then
-        if hasKey "choices".toList kvs ∨ isTruthyAt "add_none_option".toList kvs then none
+      if t = k!"survey" ∨ t = k!"group" ∨ t = k!"repeat" then
+        if hasKey k!"choices" kvs ∨ isTruthyAt k!"add_none_option" kvs ∨ !nameOk kvs
+            ∨ (hasKey k!"title" kvs ∧ !isTruthyAt k!"title" kvs) then none
         else
           let kidsJ : Option (List J) :=
-            match lookup "children".toList kvs with
+            match lookup k!"children" kvs with
             | none => some []
             | some (.arr cs) => some cs
             | some v => if truthy v then none else some []
@@ -145,16 +154,16 @@ def fromJson (cfg : Cfg) : Nat → J → Option El
             match mapOpt (fromJson cfg f) cs with
             | none => none
             | some kids =>
-              if t = "survey".toList then
-                match lookup "name".toList kvs with
+              if t = k!"survey" then
+                match lookup k!"name" kvs with
                 | none => none
                 | some nm =>
-                  let kvs' := if hasKey "title".toList kvs then kvs else kvs ++ [("title".toList, nm)]
-                  let slots := overrideSlot "setgeopoint_by_triggering_ref".toList (.obj [])
-                    (overrideSlot "setvalues_by_triggering_ref".toList (.obj []) (reloadSlots cfg.surveyNames kvs'))
+                  let kvs' := if hasKey k!"title" kvs then kvs else kvs ++ [(k!"title", nm)]
+                  let slots := overrideSlot k!"setgeopoint_by_triggering_ref" (.obj [])
+                    (overrideSlot k!"setvalues_by_triggering_ref" (.obj []) (reloadSlots cfg.surveyNames kvs'))
                   some (.mk .survey slots [] [] [] kids none [])
               else
-                some (.mk (if t = "group".toList then .group else .repeat) (reloadSlots cfg.sectionNames kvs)
+                some (.mk (if t = k!"group" then .group else .repeat) (reloadSlots cfg.sectionNames kvs)
                   [] [] [] kids none [])
       else questionFromJson cfg t kvs
     | _ => none
